@@ -375,6 +375,9 @@ def run(ctx):
     pa = ctx.hir("layout_parsing_formatting::parse_absorbing")
     pm = [c for c in hirq.calls(pa["body"], path="layout_parsing_formatting::parse_modifier")]
     ck.ob("C13-R1", "layout_parsing_formatting::parse_absorbing", "bare-string-and-array-elements-both-go-through-parse_modifier", len(pm) == 2, detail="%d call sites" % len(pm))
+    # ---------------- structural clauses of the expansion pipeline
+    from . import c13s
+    c13s.run(ctx, ck)
     ck.explanation = ("CHAR_ACCESS_MAP: %d inserts compared with the 94-character oracle; rows %s; row names %s; convert_row_to classes %s."
                       % (n_ins, {str(k): v for k, v in rowmap.items()}, disp, sorted(classes)))
 
